@@ -7,6 +7,7 @@
 EXTENDS MapSlabTree, MapDict, Json
 
 CONSTANTS Keys, KSz, VSizes, MaxKeys, EmitEdges, EmitOneIn, WithReads,
+          EmitExact,   \* print only the transitions whose successor tree has a slab sitting EXACTLY on a threshold (see OnEdge)
           AppendOnly   \* explore only growth in key order: every value-size stream (sources of the bulk builder, C17)
 
 VARIABLES tree, dict, nextId, hist, res
@@ -17,7 +18,12 @@ KeysSeq == [k \in 1..Cardinality(Keys) |-> Dig(k)]
 StoredV(v) == IF v > MaxInlineMapValue(T, KSz) THEN SlabIDStorableSize ELSE v
 Elem(k, vsz) == [d |-> Dig(k)[1], key |-> k, sz |-> SingleElementPrefix + KSz + StoredV(vsz)]
 \* EmitOneIn > 1: print only a random sample of the explored transitions (the value of the conjunct is TRUE either way)
-Emit(h) == IF EmitEdges /\ (EmitOneIn <= 1 \/ RandomElement(1..EmitOneIn) = 1) THEN PrintT(ToJson(h)) ELSE TRUE
+\* a slab exactly on a threshold (see MC_Array): the states where '>=' against '>' in a lend / borrow / merge / split decision matters
+RECURSIVE OnEdge(_, _)
+OnEdge(n, isRoot) == \/ ~isRoot /\ Size(n) \in {MinT, MaxT}
+                     \/ isRoot /\ RootSize(n) = MaxT
+                     \/ n.k = "m" /\ \E i \in 1..Len(n.c) : OnEdge(n.c[i], FALSE)
+Emit(h) == IF EmitEdges /\ (~EmitExact \/ OnEdge(tree', TRUE)) /\ (EmitOneIn <= 1 \/ RandomElement(1..EmitOneIn) = 1) THEN PrintT(ToJson(h)) ELSE TRUE
 Step(o) == hist' = Append(hist, o) /\ Emit(hist')
 
 Init == tree = EmptyTree /\ dict = <<>> /\ nextId = 1 /\ hist = << <<"dig">> \o KeysSeq >> /\ res = MOk(0, FALSE)
